@@ -14,6 +14,7 @@ import (
 	"errors"
 	"fmt"
 	"io"
+	"reflect"
 	"sync/atomic"
 	"time"
 
@@ -49,8 +50,88 @@ type ProbeReport struct {
 	Known []string `json:"known,omitempty"`
 }
 
+// sameScopeTransients: two goroutines resolve one transient in ONE scope, the second while the first is still inside
+// the constructor: every request for a transient constructs - two runs, two instances (C03).
+func sameScopeTransients() (msg string) {
+	defer func() {
+		if v := recover(); v != nil {
+			msg = fmt.Sprintf("panic: %v", v)
+		}
+	}()
+	var runs int32
+	hold := make(chan struct{})
+	parked := make(chan struct{}, 2)
+	c := godi.NewCollection()
+	if err := c.AddTransient(func() *pSlow {
+		n := atomic.AddInt32(&runs, 1)
+		parked <- struct{}{}
+		if n == 1 {
+			<-hold
+		}
+		return &pSlow{int(n)}
+	}); err != nil {
+		return err.Error()
+	}
+	p, err := c.Build()
+	if err != nil {
+		return err.Error()
+	}
+	defer p.Close()
+	s, err := p.CreateScope(context.Background())
+	if err != nil {
+		return err.Error()
+	}
+	type res struct {
+		v   *pSlow
+		err error
+	}
+	first, second := make(chan res, 1), make(chan res, 1)
+	go func() { v, err := godi.Resolve[*pSlow](s); first <- res{v, err} }()
+	select {
+	case <-parked:
+	case <-time.After(5 * time.Second):
+		return "the first resolution never reached the constructor"
+	}
+	go func() { v, err := godi.Resolve[*pSlow](s); second <- res{v, err} }()
+	var r2 res
+	select {
+	case r2 = <-second:
+	case <-time.After(2 * time.Second):
+		close(hold)
+		r1 := <-first
+		select {
+		case r2 = <-second:
+		case <-time.After(5 * time.Second):
+			return "the second resolution never returned"
+		}
+		if r1.v == r2.v || atomic.LoadInt32(&runs) != 2 {
+			return fmt.Sprintf("the second request for a transient waited for the first and got its instance (constructor ran %d times)", atomic.LoadInt32(&runs))
+		}
+		return ""
+	}
+	close(hold)
+	r1 := <-first
+	if r1.err != nil || r2.err != nil {
+		return fmt.Sprintf("resolution failed: %v / %v", r1.err, r2.err)
+	}
+	if r1.v == r2.v || atomic.LoadInt32(&runs) != 2 {
+		return fmt.Sprintf("two overlapping requests for a transient in one scope: constructor ran %d times, same instance: %v", atomic.LoadInt32(&runs), r1.v == r2.v)
+	}
+	return ""
+}
+
 func isolationProbe() ProbeReport {
 	rep := ProbeReport{}
+	rep.Rounds++
+	if msg := sameScopeTransients(); msg != "" {
+		rep.Bad = append(rep.Bad, "same-scope-transients: "+msg)
+	}
+	for _, how := range []string{"plain", "timeout", "cancellable"} {
+		rep.Rounds++
+		if msg := buildContextRound(how); msg != "" {
+			rep.Bad = append(rep.Bad, "build-context/"+how+": "+msg)
+		}
+	}
 	for _, form := range []string{"positional", "param-object"} {
 		for _, life := range []string{"scoped", "transient"} {
 			for _, order := range []string{"A-held", "B-held"} {
@@ -259,6 +340,10 @@ func orderProbe() ProbeReport {
 		rep.Bad = append(rep.Bad, "transient-of-singleton: "+msg)
 	} else if known {
 		rep.Known = append(rep.Known, "transient-of-singleton")
+	}
+	rep.Rounds++
+	if msg := rootScopeRound(); msg != "" {
+		rep.Bad = append(rep.Bad, "root-scope: "+msg)
 	}
 	for _, life := range []string{"scoped", "transient"} {
 		for _, early := range []bool{false, true} {
@@ -545,8 +630,9 @@ func overlapRound(form, life, who string) (msg string) {
 	s, err := p.CreateScope(context.Background())
 	must(err)
 	type res struct {
-		err   error
-		panic any
+		err      error
+		panic    any
+		nilValue bool
 	}
 	done := make(chan res, 1)
 	go func() {
@@ -558,9 +644,11 @@ func overlapRound(form, life, who string) (msg string) {
 			done <- r
 		}()
 		if form == "as-two" {
-			_, r.err = godi.Resolve[vI](s)
+			v, err := s.Get(reflect.TypeOf((*vI)(nil)).Elem())
+			r.err, r.nilValue = err, err == nil && v == nil
 		} else {
-			_, r.err = godi.Resolve[*vA](s)
+			v, err := s.Get(reflect.TypeOf((*vA)(nil)))
+			r.err, r.nilValue = err, err == nil && v == nil
 		}
 	}()
 	select {
@@ -592,6 +680,9 @@ func overlapRound(form, life, who string) (msg string) {
 	}
 	if r.panic != nil {
 		return fmt.Sprintf("the pending resolution panicked: %v", r.panic)
+	}
+	if r.nilValue {
+		return "the pending resolution returned neither a value nor an error (a half-initialised result)"
 	}
 	if r.err != nil && !errors.Is(r.err, godi.ErrScopeDisposed) && !errors.Is(r.err, godi.ErrProviderDisposed) {
 		return fmt.Sprintf("the pending resolution neither completed nor reported the disposed error: %v", r.err)
